@@ -119,6 +119,31 @@ class Report:
                 known_hit.append((o, k))
             else:
                 new_viol.append(o)
+        # a rule instance that fails inside a function that has been restructured since the
+        # instance was confirmed (hv/shape.py) cannot be matched any more: the check cannot
+        # decide, which is an analysis error, not a violation
+        import re as _re
+        UNDECIDABLE = _re.compile(r"<opaque|not extractable|not representable|unmodelled|unbound name|undecided (branch|comparison|conditional)|non-numeric value")
+        kept = []
+        for o in new_viol:
+            if UNDECIDABLE.search(str(o.detail)) or _re.search(r"(extractable|representable|evaluable)$", o.instance):
+                o.status = "undecided-unrepresentable"
+                self.errors.append({"rule": o.rule, "site": o.site, "message": "cannot evaluate \"%s\": %s" % (o.instance[:140], str(o.detail)[:200])})
+            else:
+                kept.append(o)
+        new_viol = kept
+        if new_viol and not os.environ.get("HV_NO_SHAPE"):
+            kept = []
+            for o in new_viol:
+                d = _restructured(o.site)
+                if d is not None:
+                    o.status = "undecided-restructured"
+                    self.errors.append({"rule": o.rule, "site": o.site,
+                                        "message": "cannot decide \"%s\": %s has been restructured since this rule instance was confirmed (statement distance %s > %d); re-confirm the instance by reading"
+                                        % (o.instance[:140], d[0], d[1], _shape_limit())})
+                else:
+                    kept.append(o)
+            new_viol = kept
         os.makedirs(os.path.join(EVIDENCE_DIR, "replay"), exist_ok=True)
         lines = []
         for o, k in known_hit:
@@ -205,6 +230,51 @@ class Report:
         if new_viol:
             return 1
         return 0
+
+
+_dist_cache = {}
+
+
+def _shape_limit():
+    from . import shape
+    return shape.RESTRUCTURED
+
+
+def _restructured(site):
+    """(what, distance) when the function (or module) a site points to is farther from the
+    reference shape than shape.RESTRUCTURED, else None"""
+    import re as _re
+    from . import shape
+    from .model import Program
+    if "d" not in _dist_cache:
+        try:
+            _dist_cache["d"] = shape.distances(Program())
+        except Exception:
+            _dist_cache["d"] = {}
+    dist = _dist_cache["d"]
+    m = _re.match(r"^([\w./-]+\.py)(?::\d+)?(?: \(([\w.<>]+)\))?", site or "")
+    if not m:
+        return None
+    rel, qn = m.group(1), m.group(2)
+    dd = dist.get(rel)
+    if not dd:
+        return None
+    if qn and qn in dd or (qn and any(k.startswith(qn + ".") or qn.startswith(k + ".") for k in dd)):
+        cand = [(k, v) for k, v in dd.items() if k == qn or k.startswith(qn + ".") or qn.startswith(k + ".")]
+    elif qn:
+        cand = [(k, v) for k, v in dd.items() if k.split(".")[-1] == qn.split(".")[-1]] or list(dd.items())
+    else:
+        cand = list(dd.items())
+    worst = None
+    for k, v in cand:
+        if v is None:
+            # a function nested in / enclosing the site that is new or has vanished: code was moved
+            if qn and (k.startswith(qn + ".") or qn.startswith(k + ".")) or not qn:
+                return ("%s (%s: function added or removed)" % (rel, k), "n/a")
+            continue
+        if v > shape.RESTRUCTURED and (worst is None or v > worst[1]):
+            worst = ("%s (%s)" % (rel, k), v)
+    return worst
 
 
 def load_known():
